@@ -301,6 +301,10 @@ outerloop:
 		} else if opElementLength == -2 { // 2 bytes long length indicator
 			opElementLength = int(binary.BigEndian.Uint16(opElements[index+1 : index+1+2]))
 			index += 1 + 2 + opElementLength
+		} else {
+			// IEI not in the table: its length is unknown, so the walk cannot continue
+			// (leaving index unchanged made this loop spin forever)
+			break outerloop
 		}
 	}
 
